@@ -387,6 +387,12 @@ class Simulation:
                 msg,
             )
 
+        if variable.definition_period != period.unit:
+            msg = f"Unable to compute variable '{variable.name}' for period {period}: '{variable.name}' must be computed for a whole {variable.definition_period}."
+            raise ValueError(
+                msg,
+            )
+
         if period.size != 1:
             msg = f"Unable to compute variable '{variable.name}' for period {period}: '{variable.name}' must be computed for a whole {variable.definition_period}. You can use the ADD option to sum '{variable.name}' over the requested period."
             raise ValueError(
